@@ -736,6 +736,8 @@ RULES = {
                  "Ord :: cmp ( & bit , & trailing_zeros )", "__u64_cmp ( bit , trailing_zeros )"),
     "R0p": Rule("R0p", "crate::big_digit::BITS -> big_digit::BITS  (path of the same constant inside the unit's module)",
                 "crate :: big_digit :: BITS", "big_digit :: BITS"),
+    "R0q": Rule("R0q", "bits::set_negative_bit -> set_negative_bit  (path of the same function inside the unit's module)",
+                "bits :: set_negative_bit", "set_negative_bit"),
     "R16u": Rule("R16u", "Ord::cmp(&a.len(), &b.len()) -> __usize_cmp(a.len(), b.len())  (std: total order on usize)",
                  "Ord :: cmp ( & a . len ( ) , & b . len ( ) )", "__usize_cmp ( a . len ( ) , b . len ( ) )"),
     "R10y": Rule("R10y", "for (a, &b) in A.iter_mut().zip(B) { BODY } (B: &[T]) -> index loop over min(len A, len B)",
@@ -822,6 +824,18 @@ RULES = {
     "R3pa": Rule("R3pa", "base % modulus -> Rem::rem(base, modulus)", "= base % modulus ;", "= Rem :: rem ( base , modulus ) ;"),
     "R3pb": Rule("R3pb", "&base * &base % modulus -> Rem::rem(Mul::mul(&base, &base), modulus)  (Rust precedence: `*` and `%` left-associative, equal precedence)",
                  "& base * & base % modulus", "Rem :: rem ( Mul :: mul ( & base , & base ) , modulus )"),
+    "R46": MultiRule("R46", "Skip<IterMut<u64>> over a Vec driven by next()/for -> position variable it__ over the same Vec (std: Skip::next first advances the inner slice iterator by n, IterMut yields the elements in index order; `next().unwrap()` panics exactly when the position is past the end = the index obligation; the `for` loop drains the rest and keeps `break`)", [
+        ("let mut digit_iter = data . digits_mut ( ) . iter_mut ( ) . skip ( bit_index ) ;",
+         "let digits__ = data . digits_mut ( ) ; let mut it__ : usize = bit_index ;"),
+        ("let digit = digit_iter . next ( ) . unwrap ( ) ;",
+         "let digit = & mut digits__ . as_mut_slice ( ) [ it__ ] ; it__ += 1 ;"),
+        ("for digit in digit_iter { $$body }",
+         "while it__ < digits__ . len ( ) { let digit = & mut digits__ . as_mut_slice ( ) [ it__ ] ; it__ += 1 ; $$body }"),
+    ]),
+    "R47": Rule("R47", "for d in &mut V[A..E] { BODY } (V: &mut Vec<T>) -> { let mut i__ = A; let e__ = E; __slice_range_check(i__, e__, V.len()); while i__ < e__ { let d = &mut V.as_mut_slice()[i__]; i__ += 1; BODY } }  (std: slicing panics unless A <= E <= len, kept as the helper's precondition; IterMut yields in index order)",
+                "for $d in & mut $v [ $$a .. $$e ] { $$body }",
+                "{ let mut i__ = $$a ; let e__ = $$e ; __slice_range_check ( i__ , e__ , $v . len ( ) ) ; while i__ < e__ { let $d = & mut $v . as_mut_slice ( ) [ i__ ] ; i__ += 1 ; $$body } }",
+                guard=lambda e: e["$$a"] and e["$$e"] and all(t not in (";", "{", "}") for t in e["$$a"] + e["$$e"])),
     "R14n": Rule("R14n", "debug_assert_ne!(..); -> (dropped)", "debug_assert_ne ! ( $$c ) ;", ""),
     "R10n": Rule("R10n", "for _ in A..E { BODY } -> { let mut i__ = A; let e__ = E; while i__ < e__ { i__ += 1; BODY } }  (std: Range yields A, .., E-1; bounds evaluated once)",
                  "for _ in $$a .. $$e { $$body }", "{ let mut i__ = $$a ; let e__ = $$e ; while i__ < e__ { i__ += 1 ; $$body } }",
